@@ -1,15 +1,27 @@
-(** Extraction of the executable models.  Directives: ExtrOcamlBasic (bool, option, unit, list,
-    prod, sumbool, sumor -> OCaml natives; andb/orb inlined) and ExtrOcamlString (ascii -> char,
-    string -> char list).  No Extract Constant / Extract Inductive of our own; nat, N, positive
-    stay the extracted inductive types. *)
-From CG Require Import Base.Prelude Model.Ast Model.Check Model.Dfa.
+(** Extraction of the executable models and specifications.
+    Directives: ExtrOcamlBasic (bool, option, unit, list, prod, sumbool, sumor -> OCaml natives;
+    andb/orb inlined) and ExtrOcamlString (ascii -> char, string -> char list).  No Extract Constant /
+    Extract Inductive of our own; nat, N, positive stay the extracted inductive types.
+    One `Require` line per module and one root per line, so that branches merge by union. *)
+From CG Require Import Base.Prelude.
+From CG Require Import Model.Ast.
+From CG Require Import Model.Check.
+From CG Require Import Model.Dfa.
 From CG Require Import Spec.Choice.
 From CGgen Require Import Consts.
+(* add new Require lines above this line *)
 Require Import ExtrOcamlBasic ExtrOcamlString.
 Extraction Language OCaml.
 Set Extraction KeepSingleton.
 Separate Extraction
-  Consts.builtins Consts.array_start_bash
+  Consts.builtins
+  Consts.array_start_bash
   Check.from_grammar
-  Dfa.accepts Dfa.inp_eqb Dfa.mkcdfa Dfa.mkall Dfa.trans_states
-  Choice.spec.
+  Dfa.accepts
+  Dfa.inp_eqb
+  Dfa.mkcdfa
+  Dfa.mkall
+  Dfa.trans_states
+  Choice.spec
+  (* add new roots above this line *)
+  Prelude.pow2.
